@@ -14,7 +14,7 @@ RULE = ('(policy, peer) pairs evaluated by the real Policy.evaluate on a real SS
         '(kex universe contains the strict-kex marker), all 4 flag combinations, all 16 optional-host-key subsets, size/CA/modulus maps over {absent,1024,2048,3072,4096}, '
         'field pairs jointly over a reduced universe, random large instances over database names, and policy files run through the CLI (-P) against scripted peers; '
         'a case (batch) is non-trivial when it contained at least one passing and one failing pair; distinct = distinct batch specifications')
-REQUIRED = {'other_file_layouts': 500, 'cli_multi_entries': 10, 'evaluations': 20000, 'model_pass': 500, 'model_fail': 500, 'metamorphic_checks': 200, 'cli_runs': 20}
+REQUIRED = {'multi_entry_size_maps': 700, 'other_file_layouts': 500, 'cli_multi_entries': 10, 'evaluations': 20000, 'model_pass': 500, 'model_fail': 500, 'metamorphic_checks': 200, 'cli_runs': 20}
 ASSUMPTIONS = ['don\'t-care where the statement is silent: compression under subset mode; an empty peer list under subset mode (optional host keys give no exemption under subset mode: the statement mentions them for exact mode only)',
                'sizes are compared only for key types / group-exchange names the peer actually presents (nothing to compare otherwise)']
 MANIFEST = {
@@ -343,6 +343,16 @@ def run_sizes(c):
                 if real_eval(pol, p2)[0] is False:
                     k = 'C06/larger-keys-not-monotone'
                     viol.setdefault(k, _v(k, 'growing a key of a passing peer under larger-keys mode made it fail', policy=pol, peer=peer, grown=p2['sizes']))
+    # several entries at once, where the plain host-key type of one entry is the CA type of another and the expected sizes differ per role
+    V = [2048, 3072, 4096]
+    for hp, cp, cap in itertools.product(V, V, V):
+        for hq, cq, caq in itertools.product(V, V, V):
+            pol = base_pol(c['flags'])
+            peer = base_peer()
+            pol['sizes'] = {'ssh-rsa': {'hostkey_size': hp}, 'rsa-sha2-512-cert-v01@openssh.com': {'hostkey_size': cp, 'ca_key_type': 'ssh-rsa', 'ca_key_size': cap}}
+            peer['sizes'] = {'ssh-rsa': {'hostkey_size': hq, 'ca_key_type': '', 'ca_key_size': 0}, 'rsa-sha2-512-cert-v01@openssh.com': {'hostkey_size': cq, 'ca_key_type': 'ssh-rsa', 'ca_key_size': caq}}
+            st['multi_entry_size_maps'] = st.get('multi_entry_size_maps', 0) + 1
+            compare(pol, peer, viol, st)
     for pd, qd in itertools.product(SIZES, SIZES):
         pol = base_pol(c['flags'])
         peer = base_peer()
